@@ -157,3 +157,28 @@ CONTRACTS["parameters:Parameter.__init__"] = dict(
     ensures=[("C06+C16.a_new_parameter_is_uncalibrated", "self.y_factor == {'adults': 1.0, 'children': 1.0} and self.meta_y_factor == 1.0 and self.skip_function == {'adults': None, 'children': None}"),
              ("C06.it_interpolates_linearly_and_holds_the_series_given", "self._interpolation_method == 'linear' and self.ts is TS and self.name == 'p'")],
     defined_props=["C06", "C16"])
+
+
+# ---- ParameterSet.__init__, which databook row a population gets (C06 "the databook series", C16): its own row, else the row entered for `all` (or
+# `All`), else nothing -- always as a COPY of the databook's series
+def _env_parset_row(rows):
+    def make(it):
+        from pyvc.interp import PyObjV
+        from pyvc import source
+
+        um, pm = source.load("utils"), source.load("parameters")
+        mk = lambda n: PyObjV("TimeSeries", um, {"t": [], "vals": [], "units": "u", "assumption": z3.Real("value_" + n), "sigma": None, "_sampled": False})
+        ts_rows = {r: mk(r) for r in rows}
+        tdve = PyObjV("TimeDependentValuesEntry", source.load("excel"), {"name": "q", "ts": ts_rows})
+        return {"self": PyObjV("ParameterSet", pm, {"name": "ps", "pop_names": ["adults"]}), "k": "adults", "tdve": tdve, "ts": {}, "ROWS": ts_rows}
+
+    return make
+
+
+for _tag, _rows, _src in (("own_row", ("adults", "all"), "adults"), ("all_row", ("children", "all"), "all"), ("capitalised_all_row", ("children", "All"), "All"), ("no_row", ("children",), None)):
+    CONTRACTS["parameters:ParameterSet.__init__#series_of_one_population_%s" % _tag] = dict(
+        schema=schema, fragment={"iter": "self.pop_names", "body_contains": "tdve.ts[k].copy()"}, make_env=_env_parset_row(_rows),
+        ensures=[("C06+C16.a_population_gets_a_copy_of_its_own_row_else_of_the_all_row",
+                  ("'adults' in ts and ts['adults'] is not ROWS[%r] and ts['adults'].assumption == ROWS[%r].assumption and len(ts) == 1" % (_src, _src)) if _src else "len(ts) == 0")],
+        defined_props=["C06", "C16"])
+import z3  # noqa: E402
